@@ -103,6 +103,13 @@ impl Session {
             Ok(r) => r,
             Err(_) => "panic".to_string(),
         };
+        {
+            let mut w = self.world.borrow_mut();
+            let parts: Vec<(String, usize)> = w.partial.drain(..).collect();
+            for (host, n) in parts {
+                w.lean.log(&format!("NOTE partial-frame {} {}", crate::lean::hex(host.as_bytes()), n));
+            }
+        }
         self.world.borrow_mut().lean.log(&format!("RESULT {}", r));
         self.results.push((line.to_string(), r.clone()));
         r
@@ -371,6 +378,24 @@ impl Session {
                 ["clear_faults"] => {
                     w.faults.fail_send_at = None;
                     w.faults.fail_recv_at = None;
+                    w.faults.timeout_recv_at = None;
+                    w.faults.eof_read_at = None;
+                    w.faults.write_chunks.clear();
+                    w.faults.read_chunks.clear();
+                }
+                ["write_chunks", cs] => {
+                    w.faults.write_chunks = cs.split(',').map(|c| c.parse().unwrap()).collect();
+                }
+                ["read_chunks", cs] => {
+                    w.faults.read_chunks = cs.split(',').map(|c| c.parse().unwrap()).collect();
+                }
+                ["timeout_recv", n] => {
+                    let at = w.recvs + n.parse::<usize>().unwrap();
+                    w.faults.timeout_recv_at = Some(at);
+                }
+                ["eof_read", n] => {
+                    let at = w.reads + n.parse::<usize>().unwrap();
+                    w.faults.eof_read_at = Some(at);
                 }
                 _ => panic!("bad directive {}", h),
             }
